@@ -1419,6 +1419,64 @@ def augment_jobs(js, rng, pid, tier):
     return len(extra)
 
 
+def job_views(j):
+    """names of all views a job's expressions mention"""
+    names = set()
+    es = [getattr(j, "e", None), getattr(j, "outer", None), getattr(j, "inner", None)] + list(getattr(j, "es", None) or [])
+    if isinstance(j, Relation):
+        try:
+            es += list(j.exprs())
+        except Exception:
+            pass
+    for e in es:
+        if e:
+            names.update(gen.tree_names(e))
+    return names
+
+
+def search_phase(pid, seed, tier, focus, everything, known, budget_s):
+    """Deeper search for a concrete failing input.  Runs when /repo's sources differ from the ones the model was last
+    validated against (source_hashes.json) or when the correspondence broke without an oracle failure: fresh PRNG states,
+    the thorough-tier generators of this property restricted to the views concerned (all views when a shared file changed),
+    until an oracle job fails or the time budget is used up.  Only the kinds of job the ordinary tiers run — so it can report
+    nothing the thorough tier could not."""
+    t0 = time.time()
+    stats = dict(rounds=0, jobs=0, views=sorted(focus), all_views=bool(everything), budget_s=budget_s, corr_failures=0, found=False)
+    first_corr = None
+    rounds = 0
+    while time.time() - t0 < budget_s and rounds < 40:
+        rounds += 1
+        rng = random.Random(seed * 1000003 + 7919 * rounds + int(pid[1:]))
+        js = GENERATORS[pid](rng, "thorough" if rounds % 2 == 0 else "quick")
+        add_clone_hops(js, random.Random(seed * 15485863 + rounds))
+        if rounds <= 2:
+            augment_jobs(js, random.Random(seed * 32452843 + rounds), pid, "quick")
+        if not everything:
+            js = [j for j in js if job_views(j) & focus]
+        elif len(js) > 1500:
+            js = rng.sample(js, 1500)
+        if not js:
+            continue
+        stats["rounds"] = rounds
+        for i in range(0, len(js), 300):
+            if time.time() - t0 > budget_s:
+                break
+            res = run_jobs(js[i:i + 300])
+            stats["jobs"] += len(res)
+            for j, f in res:
+                if f is None or any(finding_matches(kk, j, f) for kk in known):
+                    continue
+                if f.get("corr_only"):
+                    stats["corr_failures"] += 1
+                    first_corr = first_corr or (j, f)
+                    continue
+                stats["found"] = True
+                stats["wall_s"] = round(time.time() - t0, 1)
+                return (j, f), first_corr, stats
+    stats["wall_s"] = round(time.time() - t0, 1)
+    return None, first_corr, stats
+
+
 def check_property(pid, tier, seed, do_lean=True, write_evidence=True):
     t0 = time.time()
     if pid not in GENERATORS:
@@ -1522,6 +1580,23 @@ def check_property(pid, tier, seed, do_lean=True, write_evidence=True):
             corr_failures.append((j, f))
         else:
             oracle_failures.append((j, f))
+    # sources that differ from the validated ones, or a broken correspondence without a counter-example: search deeper
+    search = None
+    if build_error is None and not oracle_failures and not os.environ.get("VERIF_NO_SEARCH"):
+        focus, everything, changed = core.source_focus()
+        for j, f in corr_failures:
+            focus |= {n for n in job_views(j) if n in gen.CATALOGUE or n in gen.TWO or n in gen.BINOPS or n == "tanh"}
+        if focus or everything:
+            budget = float(os.environ.get("VERIF_SEARCH_S", 75 if tier == "quick" else 600))
+            log("%s: sources differ from the validated ones (%s)%s: searching the views %s for a failing input (<= %.0fs)"
+                % (pid, ", ".join(changed) or "-", " / correspondence broke" if corr_failures else "",
+                   "ALL" if everything else sorted(focus), budget))
+            hit, c1, search = search_phase(pid, seed, tier, focus, everything, known, budget)
+            search["changed_files"] = changed
+            if hit is not None:
+                oracle_failures.append(hit)
+            if c1 is not None and not corr_failures:
+                corr_failures.append(c1)
     for line in sorted(set(known_lines)):
         print(line)
     violation = None
@@ -1582,6 +1657,7 @@ def check_property(pid, tier, seed, do_lean=True, write_evidence=True):
         job_kinds=dict(kinds), views=dict(views), samples=samples,
         known_findings_replayed=len(known_lines), failures_matching_known_findings=len(known_hits),
         implementation_line_coverage=impl_cov,
+        search_for_failing_input=search or "not needed: /repo/src equals the sources recorded in source_hashes.json and the correspondence held",
         explanation="proof obligations: theorems of SF/Props/%s.lean audited with #print axioms; tie: Rust harness on /repo's working tree vs Lean model (f64 and exact Q) and vs batch specs; relations evaluated on the implementation in exact arithmetic" % pid,
     )
     if write_evidence:
